@@ -56,3 +56,35 @@ Fixpoint stream_malformed (fuel : nat) (s : list N) : bool :=
   end.
 
 Definition has_malformed (s : list N) : bool := stream_malformed (S (length s)) s.
+
+(* ---------- "well-formed packets that preceded it are processed normally" ---------- *)
+(* what the reader did with inbound PUBLISH / PUBREL: hand-overs (with the message) and the
+   acknowledgements it wrote, in program order *)
+Definition sv_in_events (es : list sv_event) : list in_event :=
+  flat_map (fun e => match e with EvIn x => [x] | _ => [] end) es.
+
+(* the PUBLISH and PUBREL packets among the well-formed packets of the stream, up to the first
+   malformed packet or the end of the stream, as the peer sent them (topic, identifier, QoS,
+   flags and payload BYTES) *)
+Fixpoint prefix_pkts (fuel : nat) (s : list N) : list in_pkt :=
+  match fuel with
+  | O => []
+  | S f =>
+      match fst (read_packet s) with
+      | RP_ok typ flag body rest =>
+          if malformed typ flag body then []
+          else match typ with
+               | 3 => match parse_publish flag body with Ok m => [InPublish m] | _ => [] end
+               | 6 => match body with hi :: lo :: _ => [InPubRel (hi * 256 + lo)] | _ => [] end
+               | _ => []
+               end ++ prefix_pkts f rest
+      | _ => []
+      end
+  end.
+
+(* normal processing = what the abstract receiver of MQTT 3.1.1 section 4.3 (Inbound.spec_run, the
+   specification C04 is proved against) prescribes for exactly these packets: every message is
+   handed over with the content it was sent with — for QoS 2 at its PUBREL, whatever arrived in
+   between *)
+Definition expected_events (handler : bool) (s : list N) : list in_event :=
+  spec_run handler os_empty (prefix_pkts (S (length s)) s).
